@@ -117,10 +117,25 @@ class Replayer:
                     self.cmp_stream(it, st[bl[b]["s"] - 1], "locate")
 
     # ---- one plan
-    def run_plan(self, plan):
-        """Returns None or dict(step=, key=, detail=)."""
+    def run_plan(self, plan, inject=None):
+        """Returns None or dict(step=, key=, detail=).
+        inject: random.Random or None.  With it, all calls use a counting allocator, and before some append / cat /
+        dup calls the same call is first made with every allocation failing: it must return LZMA_MEM_ERROR (NULL)
+        and leave every index exactly as the model predicted it before the call ("a failed call changes
+        nothing"), or succeed without allocating."""
         lz = self.lz; L = self.L
-        reg = {1: L.lzma_index_init(None)}
+        armed = [False]
+        alloc = lz.CountingAllocator(fail_at=lambda n: armed[0]) if inject else None
+        A = alloc.ptr() if alloc else None
+        def unchanged(what):
+            self.memerrs = getattr(self, "memerrs", 0) + 1
+            try:
+                for slot, p in reg.items():
+                    if slot in last:
+                        self.observe(p, last[slot])
+            except Mismatch as e:
+                raise Mismatch("memerr." + e.field, "after a failed allocation in %s: %s" % (what, e.detail))
+        reg = {1: L.lzma_index_init(A)}
         last = {}           # slot -> last predicted observation
         it = lz.IndexIter(); it_slot = 0
         keep = []
@@ -132,16 +147,25 @@ class Replayer:
                     if op == "start":
                         pass
                     elif op == "init":
-                        reg[k] = L.lzma_index_init(None)
+                        reg[k] = L.lzma_index_init(A)
                     elif op == "end":
-                        L.lzma_index_end(reg.pop(k), None); last.pop(k, None)
+                        L.lzma_index_end(reg.pop(k), A); last.pop(k, None)
                         if it_slot == k:
                             it_slot = 0
                     elif op == "append":
-                        ret = lz.retname(L.lzma_index_append(reg[k], None, big(o["u"]) & M64, big(o["v"]) & M64))
+                        r = None
+                        if inject and inject.random() < 0.3:
+                            armed[0] = True
+                            r = L.lzma_index_append(reg[k], A, big(o["u"]) & M64, big(o["v"]) & M64)
+                            armed[0] = False
+                            if r == lz.MEM_ERROR:
+                                unchanged("append"); r = None
+                        if r is None:
+                            r = L.lzma_index_append(reg[k], A, big(o["u"]) & M64, big(o["v"]) & M64)
+                        ret = lz.retname(r)
                     elif op == "appendn":
                         for _ in range(o["n"]):
-                            r = L.lzma_index_append(reg[k], None, big(o["u"]), big(o["v"]))
+                            r = L.lzma_index_append(reg[k], A, big(o["u"]), big(o["v"]))
                             if r != 0:
                                 ret = lz.retname(r); break
                     elif op == "flags":
@@ -149,28 +173,46 @@ class Replayer:
                     elif op == "padding":
                         ret = lz.retname(L.lzma_index_stream_padding(reg[k], big(o["u"]) & M64))
                     elif op == "cat":
-                        ret = lz.retname(L.lzma_index_cat(reg[k], reg[j], None))
+                        r = None
+                        if inject and inject.random() < 0.5:
+                            armed[0] = True
+                            r = L.lzma_index_cat(reg[k], reg[j], A)
+                            armed[0] = False
+                            if r == lz.MEM_ERROR:
+                                unchanged("cat"); r = None
+                        if r is None:
+                            r = L.lzma_index_cat(reg[k], reg[j], A)
+                        ret = lz.retname(r)
                         if ret == "OK":
                             reg.pop(j); last.pop(j, None)
                             if it_slot == j:
                                 it_slot = 0
                     elif op == "catn":
                         for _ in range(o["n"]):
-                            x = L.lzma_index_init(None)
+                            x = L.lzma_index_init(A)
                             for _ in range(o["m"]):
-                                assert L.lzma_index_append(x, None, big(o["u"]), big(o["v"])) == 0
+                                assert L.lzma_index_append(x, A, big(o["u"]), big(o["v"])) == 0
                             if o["f"]["set"]:
                                 assert L.lzma_index_stream_flags(x, C.byref(self.flags(o["f"]))) == 0
                             assert L.lzma_index_stream_padding(x, 4 * j) == 0
-                            r = L.lzma_index_cat(reg[k], x, None)
+                            r = L.lzma_index_cat(reg[k], x, A)
                             if r != 0:
-                                L.lzma_index_end(x, None); ret = lz.retname(r); break
+                                L.lzma_index_end(x, A); ret = lz.retname(r); break
                     elif op == "dup":
-                        reg[j] = L.lzma_index_dup(reg[k], None)
-                        if not reg[j]:
+                        if inject and inject.random() < 0.5:
+                            nth = inject.randrange(1, 7); cnt = [0]
+                            alloc.fail_at = lambda n: (cnt.__setitem__(0, cnt[0] + 1) or cnt[0] >= nth)
+                            x = L.lzma_index_dup(reg[k], A)
+                            alloc.fail_at = lambda n: armed[0]
+                            if x:
+                                L.lzma_index_end(x, A)
+                            unchanged("dup")
+                        x = L.lzma_index_dup(reg[k], A)
+                        if not x:
                             raise Mismatch("ret", "lzma_index_dup returned NULL")
+                        reg[j] = x
                     elif op == "encdec":
-                        ret = self.encdec(reg, k, j, s)
+                        ret = self.encdec(reg, k, j, s, A)
                     elif op == "iter_init":
                         L.lzma_index_iter_init(C.byref(it), reg[k]); it_slot = k
                     elif op in ("iter_next", "iter_locate"):
@@ -224,7 +266,9 @@ class Replayer:
                     return dict(step=n, key=key, detail=e.detail)
         finally:
             for p in reg.values():
-                L.lzma_index_end(p, None)
+                L.lzma_index_end(p, A)
+        if alloc and (alloc.live or alloc.errors):
+            return dict(step=len(plan) - 1, key="replay:allocator", detail="after freeing every index: %d allocations live, errors %s" % (len(alloc.live), alloc.errors[:3]))
         return None
 
     def flags(self, f):
@@ -233,7 +277,7 @@ class Replayer:
         sf.backward_size = big(f["bs"]) if f["bsk"] else self.lz.VLI_UNKNOWN
         return sf
 
-    def encdec(self, reg, k, j, s):
+    def encdec(self, reg, k, j, s, A=None):
         lz = self.lz; L = self.L
         size = L.lzma_index_size(reg[k])
         want = bytes(s["enc"])
@@ -254,10 +298,10 @@ class Replayer:
             raise Mismatch("encode_crc", "CRC32 of the encoded Index is wrong")
         out = C.c_void_p(); ml = C.c_uint64(lz.UINT64_MAX); ip = C.c_size_t(0)
         ib = lz.Buf(size, data)
-        r = L.lzma_index_buffer_decode(C.byref(out), C.byref(ml), None, ib.addr, C.byref(ip), size)
+        r = L.lzma_index_buffer_decode(C.byref(out), C.byref(ml), A, ib.addr, C.byref(ip), size)
         if r == lz.OK:
             if ip.value != size:
-                L.lzma_index_end(out, None)
+                L.lzma_index_end(out, A)
                 raise Mismatch("decode", "decoder consumed %d of %d bytes" % (ip.value, size))
             reg[j] = out.value
         return lz.retname(r)
@@ -275,8 +319,10 @@ def main():
             for n, line in enumerate(f):
                 plan = json.loads(line)
                 out.write(json.dumps(dict(begin=n)) + "\n"); out.flush()
-                r = rp.run_plan(plan)
+                import random
+                r = rp.run_plan(plan, random.Random(n) if n % 2 else None)
                 out.write(json.dumps(dict(done=n, res=r)) + "\n"); out.flush()
+            out.write(json.dumps(dict(stats=dict(memerrs=getattr(rp, "memerrs", 0)))) + "\n")
     elif mode in ("fi_build", "fi_run"):
         from harness.pydrv import c13_fileinfo
         c13_fileinfo.worker(lz, src, dst, mode)
